@@ -357,7 +357,15 @@ func (x *Exec) entryEnv(fr *Frame, st *State) *Env {
 // Loops
 
 func (x *Exec) loopInvs(fr *Frame, ord int) []*Clause {
-	if !fr.isEntry || x.ctr == nil {
+	if !fr.isEntry {
+		// a function executed in place because its contract says `inline` brings its own
+		// loop invariants (names resolve in its own frame: parameters, locals, captured variables)
+		if c := x.contractFor(fr.fn); c != nil && c.Inline {
+			return c.Invs[ord]
+		}
+		return nil
+	}
+	if x.ctr == nil {
 		return nil
 	}
 	return x.ctr.Invs[ord]
@@ -527,6 +535,11 @@ func (x *Exec) loopEntry(fr *Frame, st *State, h *ssa.BasicBlock, ord int) bool 
 		cell := pv.Loc.Cell
 		if old, ok := st.cells[cell]; ok && old.T.Sort == "Int" {
 			st.ghost[fmt.Sprintf("entryval:%d", cell.id)] = old.T
+		}
+		if old, ok := st.cells[cell]; ok && old.Clo != nil {
+			// a func-typed variable that the loop reassigns loses its identity at the loop head:
+			// a later call through it may run the closure it held, which writes its captured cells
+			x.escapeClosure(st, old.Clo)
 		}
 		nv := x.freshVal(st, "loop_"+cell.name, cell.typ)
 		st.cells[cell] = nv
